@@ -4,9 +4,10 @@
 //! through re-exports of individual items from within
 //! `kafka::client`.
 
+use std::cmp;
 use std::collections::HashMap;
 use std::fmt;
-use std::io::{Read, Write};
+use std::io::{self, Read, Write};
 use std::mem;
 use std::net::{Shutdown, TcpStream};
 use std::time::{Duration, Instant};
@@ -14,7 +15,7 @@ use std::time::{Duration, Instant};
 #[cfg(feature = "security")]
 use openssl::ssl::{Error as SslError, HandshakeError, SslConnector};
 
-use crate::error::Result;
+use crate::error::{Error, Result};
 
 // --------------------------------------------------------------------
 
@@ -389,9 +390,27 @@ impl KafkaConnection {
     }
 
     pub fn read_exact_alloc(&mut self, size: u64) -> Result<Vec<u8>> {
-        let mut buffer = vec![0; size as usize];
-        self.read_exact(buffer.as_mut_slice())?;
-        Ok(buffer)
+        // ~ `size` comes from the remote side: do not allocate it
+        // up front, let the buffer grow with the data actually
+        // received
+        let mut buffer = Vec::with_capacity(cmp::min(size, 64 * 1024) as usize);
+        let r = (&mut self.stream)
+            .take(size)
+            .read_to_end(&mut buffer)
+            .map_err(Error::from)
+            .and_then(|n| {
+                if (n as u64) < size {
+                    Err(Error::from(io::Error::new(
+                        io::ErrorKind::UnexpectedEof,
+                        "failed to fill whole buffer",
+                    )))
+                } else {
+                    Ok(())
+                }
+            });
+        trace!("Read {} bytes from: {:?} => {:?}", size, self, r);
+        self.broken |= r.is_err();
+        r.map(|()| buffer)
     }
 
     fn shutdown(&mut self) -> Result<()> {
